@@ -38,6 +38,12 @@ R34e  after a skip nothing is produced for the file: from the body of a skip
       handler/arm no ``yield`` / ``return <value>`` of the same function is
       reachable without first returning to the head of the enclosing file loop
       (returning an accumulator object created before the skip is not a product).
+
+Spellings read as the same facts (QUIET sweep): ``a > b`` / ``b < a`` / ``not (a <= b)``; the size, the
+limit test, the skip counter, ``files_skipped`` and the config value through locals; the comparison nested
+under ``if limit:`` or the no-config case as an early return (the "nothing to compare with" edges test the
+config parameter the limit is read from, or the limit itself); ``n > 0`` / ``n != 0`` for ``n``; an
+isinstance-arm whose subject was read into a local.
 """
 
 from __future__ import annotations
@@ -46,6 +52,8 @@ import ast
 from typing import Dict, List, Optional, Set, Tuple
 
 from ..cfg import Branch, atoms, cfg_of, origins
+from ..counts import zero_test
+from ..idioms import atoms_at, branch_atoms, expanded
 from ..index import AnalysisError, FuncNode, call_name, calls_in, const, enclosing_class, enclosing_function, kwarg, last_attr, module_of, norm, short, walk_local
 from ..iohelpers import LINTER, RUNNER, ancestors, branch_node, decorator_names, fq, fq_expr, in_block, param_of, qual, returns_of
 from ..report import construct_of
@@ -153,30 +161,56 @@ def _r34a(chk, repo) -> None:
     raises = [n for n in walk_local(wrapper) if isinstance(n, ast.Raise) and n.exc is not None and _is_skip(n.exc.func if isinstance(n.exc, ast.Call) else n.exc)]
     # the text parameter: what the wrapper forwards to the wrapped function as ``in_str=``
     text_params = {param_of(cfg, kwarg(c, "in_str"), cfg.stmt_of(c)) for c in fcalls if kwarg(c, "in_str") is not None} - {None}
-    ok_cmp = None
+    def is_text_len(x, at) -> bool:
+        x = expanded(cfg, x, at)  # `n = len(in_str)` reads as the call
+        return isinstance(x, ast.Call) and call_name(x) == "len" and bool(x.args) and param_of(cfg, x.args[0], at) in text_params
+
+    ok_cmp = None  # (raise, Branch edge on which the comparison is known true)
     for r in raises:
-        for e, pol in cfg.conditions(r):
-            if pol and isinstance(e, ast.Compare) and len(e.ops) == 1 and isinstance(e.ops[0], (ast.Gt, ast.GtE)):
-                l, rr = e.left, e.comparators[0]
-                if isinstance(l, ast.Call) and call_name(l) == "len" and l.args and param_of(cfg, l.args[0], r) in text_params and _from_config(cfg, rr, r, "large_file_skip_char_limit"):
-                    ok_cmp = (r, e)
+        for g in cfg.guards(r):
+            for e, pol in branch_atoms(cfg, g):
+                sl = _over_limit(e, pol)
+                if sl is not None and is_text_len(sl[0], cfg.stmt_of(e) or r) and _from_config(cfg, sl[1], cfg.stmt_of(e) or r, "large_file_skip_char_limit"):
+                    ok_cmp = (r, g)
     chk.require(ok_cmp is not None, "R34a", wrapper, "the wrapper does not raise SQLFluffSkipFile under `len(<input>) > <large_file_skip_char_limit>`", detail="wrapper raises under the char-limit comparison")
     if ok_cmp is not None and fcalls:
-        r, e = ok_cmp
-        if_stmt = cfg.stmt_of(e)
-        # "no config object given" branches: nothing to compare with
-        nocfg = []
+        r, over = ok_cmp
+        if_stmt = over.stmt
+        # "nothing to compare with" edges: no config object given (a parameter is falsy) or the limit itself is
+        # falsy (the check is switched off) -- every fact on the edge is of that kind
+        cfg_params = {
+            param_of(cfg, g_.func.value, cfg.stmt_of(g_)) for g_ in calls_in(wrapper)
+            if last_attr(g_) == "get" and isinstance(g_.func, ast.Attribute) and g_.args and const(g_.args[0]) == "large_file_skip_char_limit"
+        } - {None}
+        off = []
         for b in cfg.nodes:
-            if isinstance(b, Branch) and isinstance(b.stmt, ast.If) and not b.polarity:
-                ats = atoms(b.stmt.test, False)
-                if ats and all(isinstance(x, ast.Name) and not pol and param_of(cfg, x, b.stmt) is not None for x, pol in ats):
-                    nocfg.append(b)
+            if isinstance(b, Branch) and isinstance(b.stmt, ast.If):
+                ats = branch_atoms(cfg, b)
+                if ats and all(
+                    not pol and ((isinstance(x, ast.Name) and param_of(cfg, x, b.stmt) in cfg_params) or _from_config(cfg, x, cfg.stmt_of(x) or b.stmt, "large_file_skip_char_limit"))
+                    for x, pol in ats
+                ):
+                    off.append(b)
         for c in fcalls:
             st = cfg.stmt_of(c)
-            bt = branch_node(cfg, if_stmt, True)
-            chk.require(not cfg.paths_avoiding(cfg.entry, st, lambda n: n is if_stmt or n in nocfg) and (bt is None or not cfg.reaches(bt, st)), "R34a", c,
+            chk.require(not cfg.paths_avoiding(cfg.entry, st, lambda n: n is if_stmt or n in off) and not cfg.reaches(over, st), "R34a", c,
                         "the wrapped templater can be entered without (or in spite of) the size test", detail="size test dominates the wrapped call")
     chk.require(bool(fcalls), "R34a", wrapper, "the wrapper never calls the wrapped function", detail="wrapper calls wrapped function")
+
+
+def _over_limit(e, pol):
+    """(size, limit) when the fact ``e is pol`` says ``size > limit`` or ``size >= limit``:
+    ``a > b`` / ``b < a`` true, ``a <= b`` / ``b >= a`` false (and the ``>=`` counterparts)."""
+    if not (isinstance(e, ast.Compare) and len(e.ops) == 1):
+        return None
+    op, a, b = type(e.ops[0]), e.left, e.comparators[0]
+    if not pol:
+        op = {ast.Gt: ast.LtE, ast.GtE: ast.Lt, ast.Lt: ast.GtE, ast.LtE: ast.Gt}.get(op)
+    if op in (ast.Gt, ast.GtE):
+        return a, b
+    if op in (ast.Lt, ast.LtE):
+        return b, a
+    return None
 
 
 def _from_config(cfg, e, at, key: str) -> bool:
@@ -226,10 +260,12 @@ def _r34b(chk, repo) -> None:
     cmps = []
     for n in walk_local(L):
         if isinstance(n, ast.If):
-            for e, pol in atoms(n.test, True):
-                if pol and isinstance(e, ast.Compare) and len(e.ops) == 1 and isinstance(e.ops[0], (ast.Gt, ast.GtE)):
-                    p = _size_of_param(cfg, e.left, n)
-                    if p and _from_config(cfg, e.comparators[0], n, "large_file_skip_byte_limit"):
+            for e, pol in atoms_at(cfg, n.test, True, n):  # also a test held in a boolean local
+                sl = _over_limit(e, pol)
+                if sl is not None:
+                    at = cfg.stmt_of(e) or n
+                    p = _size_of_param(cfg, sl[0], at)
+                    if p and _from_config(cfg, sl[1], at, "large_file_skip_byte_limit"):
                         cmps.append((n, e, p))
     chk.count("R34b.size_comparisons", len(cmps))
     _r34b_limit_source(chk, L, cfg, reads)
@@ -384,16 +420,20 @@ def _r34c(chk, repo, sites: List[Site], bases: Set[str]) -> None:
     cfgLP = cfg_of(LP)
     counters: Set[str] = set()
     transfers = []
+    moved: Dict[int, ast.Attribute] = {}  # transfer statement -> the counter attribute it copies (read in place or through a local)
     for s in walk_local(LP):
-        if isinstance(s, ast.Assign) and len(s.targets) == 1 and isinstance(s.targets[0], ast.Attribute) and s.targets[0].attr == "files_skipped" and isinstance(s.value, ast.Attribute):
-            counters.add(s.value.attr)
-            transfers.append(s)
+        if isinstance(s, ast.Assign) and len(s.targets) == 1 and isinstance(s.targets[0], ast.Attribute) and s.targets[0].attr == "files_skipped":
+            v = expanded(cfgLP, s.value, s) if isinstance(s.value, ast.Name) else s.value
+            if isinstance(v, ast.Attribute):
+                counters.add(v.attr)
+                transfers.append(s)
+                moved[id(s)] = v
     chk.count("R34c.counter_transfers", len(transfers))
     rets = [r for r in returns_of(LP) if r.value is not None]
     if chk.require(bool(transfers), "R34c", LP, "lint_paths never copies the runner's skip counter into LintingResult.files_skipped: skipped files are invisible to every exit computation",
                    detail="skip counter transferred to files_skipped"):
         for t in transfers:
-            run_calls = [c for c in calls_in(LP) if last_attr(c) == "run" and isinstance(c.func, ast.Attribute) and norm(c.func.value) == norm(t.value.value)]
+            run_calls = [c for c in calls_in(LP) if last_attr(c) == "run" and isinstance(c.func, ast.Attribute) and norm(c.func.value) == norm(moved[id(t)].value)]
             chk.require(bool(run_calls) and all(cfgLP.dominates(t, r) for r in rets) and isinstance(t.targets[0].value, ast.Name)
                         and all(isinstance(r.value, ast.Name) and r.value.id == t.targets[0].value.id for r in rets),
                         "R34c", t, "the skip counter is not transferred from the runner that ran, into the result that is returned, on every path", detail="transfer dominates return")
@@ -582,7 +622,15 @@ def _escape_analysis(chk, repo, sites, bases, counts) -> None:
         else:
             chk.ok("R34c", qual(R), f"no skip escapes {rq}")
     # (iii) broad absorbers in core/linter
-    arms_attrs = {s.subject.attr for s in sites if s.kind == "arm" and isinstance(s.subject, ast.Attribute)}
+    arms_attrs = set()
+    for s in sites:
+        if s.kind != "arm":
+            continue
+        subj = s.subject
+        if isinstance(subj, ast.Name):  # `err = result.ee; if isinstance(err, SQLFluffSkipFile)`
+            subj = expanded(cfg_of(s.func), subj, s.node)
+        if isinstance(subj, ast.Attribute):
+            arms_attrs.add(subj.attr)
     n_b = 0
     for h, lst in absorbed.items():
         if _catch_kind(h, bases) != "broad":
@@ -740,19 +788,22 @@ def _r34d(chk, repo) -> None:
             # and `<config>.get("large_file_skip_fail")`, spelled in one `if`, nested `if`s or
             # through a local holding the conjunction.
             def expand(e, pol, at, depth=0):
+                """Atoms ``(expr, truth, statement where it is evaluated)`` of a test: through not/bool(),
+                and/or, ``n > 0`` / ``n != 0`` / ``n == 0`` for the count ``n``, and locals holding one expression."""
                 if isinstance(e, ast.UnaryOp) and isinstance(e.op, ast.Not):
                     return expand(e.operand, not pol, at, depth)
                 if isinstance(e, ast.Call) and call_name(e) == "bool" and len(e.args) == 1:
                     return expand(e.args[0], pol, at, depth)
                 if isinstance(e, ast.BoolOp) and ((isinstance(e.op, ast.And) and pol) or (isinstance(e.op, ast.Or) and not pol)):
                     return [a for v in e.values for a in expand(v, pol, at, depth)]
+                zt = zero_test(e)
+                if zt is not None:
+                    return expand(zt[0], (not pol) if zt[1] else pol, at, depth)
                 if isinstance(e, ast.Name) and depth < 4:
                     os_ = origins(cfg, e, at)
-                    if len(os_) == 1 and os_[0].kind == "expr" and not os_[0].path and not isinstance(os_[0].expr, ast.Name):
-                        sub = expand(os_[0].expr, pol, os_[0].stmt, depth + 1)
-                        if len(sub) > 1 or (sub and sub[0][0] is not os_[0].expr):
-                            return sub
-                return [(e, pol)]
+                    if len(os_) == 1 and os_[0].kind == "expr" and not os_[0].path and not isinstance(os_[0].expr, ast.Name) and os_[0].stmt is not None:
+                        return expand(os_[0].expr, pol, os_[0].stmt, depth + 1)
+                return [(e, pol, at)]
 
             def is_skip_atom(e, at) -> bool:
                 return (
@@ -783,8 +834,8 @@ def _r34d(chk, repo) -> None:
                         for e0, p0 in atoms(g.stmt.test, g.polarity):
                             if (norm(e0), p0) in shared:
                                 continue
-                            for e, pol in expand(e0, p0, g.stmt):
-                                if pol and is_skip_atom(e, g.stmt):
+                            for e, pol, e_at in expand(e0, p0, g.stmt):
+                                if pol and is_skip_atom(e, e_at):
                                     skip = True
                                 elif pol and is_cfg_atom(e):
                                     cfgatom = True
@@ -939,6 +990,170 @@ VARIANTS = [
         "    if result.files_skipped and linter.config.get(\"large_file_skip_fail\"):\n        exit_code = max(exit_code, EXIT_FAIL)\n\n    sys.exit(exit_code)\n",
         "    if result.files_skipped:\n        if linter.config.get(\"large_file_skip_fail\"):\n            exit_code = max(exit_code, EXIT_FAIL)\n\n    sys.exit(exit_code)\n",
         "QUIET", None, "conjunction spelled as nested ifs",
+    ),
+    # behaviour-preserving refactors: must stay quiet (sweep)
+    Variant(
+        'quiet-char-limit-test-nested-under-limit', TEMPL_BASE,
+        '        if config:\n            limit = config.get("large_file_skip_char_limit")\n            if limit:\n                templater_logger.warning(\n                    "The config value large_file_skip_char_limit was found set. "\n                    "This feature will be removed in a future release, please "\n                    "use the more efficient \'large_file_skip_byte_limit\' instead."\n                )\n            if limit and len(in_str) > limit:\n                raise SQLFluffSkipFile(\n                    f"Length of file {fname!r} is over {limit} characters. "\n                    "Skipping to avoid parser lock. Users can increase this limit "\n                    "in their config by setting the \'large_file_skip_char_limit\' "\n                    "value, or disable by setting it to zero."\n                )\n        return func(\n            self, in_str=in_str, fname=fname, config=config, formatter=formatter\n        )\n',
+        '        if config:\n            limit = config.get("large_file_skip_char_limit")\n            if limit:\n                templater_logger.warning(\n                    "The config value large_file_skip_char_limit was found set. "\n                    "This feature will be removed in a future release, please "\n                    "use the more efficient \'large_file_skip_byte_limit\' instead."\n                )\n                if len(in_str) > limit:\n                    raise SQLFluffSkipFile(\n                        f"Length of file {fname!r} is over {limit} characters. "\n                        "Skipping to avoid parser lock. Users can increase this limit "\n                        "in their config by setting the \'large_file_skip_char_limit\' "\n                        "value, or disable by setting it to zero."\n                    )\n        return func(\n            self, in_str=in_str, fname=fname, config=config, formatter=formatter\n        )\n',
+        "QUIET", None, 'the comparison nested under the `if limit:` that is already there',
+    ),
+    Variant(
+        'quiet-char-limit-no-config-early-return', TEMPL_BASE,
+        '        if config:\n            limit = config.get("large_file_skip_char_limit")\n            if limit:\n                templater_logger.warning(\n                    "The config value large_file_skip_char_limit was found set. "\n                    "This feature will be removed in a future release, please "\n                    "use the more efficient \'large_file_skip_byte_limit\' instead."\n                )\n            if limit and len(in_str) > limit:\n                raise SQLFluffSkipFile(\n                    f"Length of file {fname!r} is over {limit} characters. "\n                    "Skipping to avoid parser lock. Users can increase this limit "\n                    "in their config by setting the \'large_file_skip_char_limit\' "\n                    "value, or disable by setting it to zero."\n                )\n        return func(\n            self, in_str=in_str, fname=fname, config=config, formatter=formatter\n        )\n',
+        '        if not config:\n            return func(\n                self, in_str=in_str, fname=fname, config=config, formatter=formatter\n            )\n        limit = config.get("large_file_skip_char_limit")\n        if limit:\n            templater_logger.warning(\n                "The config value large_file_skip_char_limit was found set. "\n                "This feature will be removed in a future release, please "\n                "use the more efficient \'large_file_skip_byte_limit\' instead."\n            )\n        if limit and len(in_str) > limit:\n            raise SQLFluffSkipFile(\n                f"Length of file {fname!r} is over {limit} characters. "\n                "Skipping to avoid parser lock. Users can increase this limit "\n                "in their config by setting the \'large_file_skip_char_limit\' "\n                "value, or disable by setting it to zero."\n            )\n        return func(\n            self, in_str=in_str, fname=fname, config=config, formatter=formatter\n        )\n',
+        "QUIET", None, '`if config:` turned into an early return for the no-config case',
+    ),
+    Variant(
+        'quiet-char-limit-test-in-boolean-local', TEMPL_BASE,
+        '            if limit and len(in_str) > limit:\n',
+        '            too_long = bool(limit) and len(in_str) > limit\n            if too_long:\n',
+        "QUIET", None, 'over-limit test held in a boolean local',
+    ),
+    Variant(
+        'quiet-char-limit-length-through-local', TEMPL_BASE,
+        '            if limit and len(in_str) > limit:\n',
+        '            n_chars = len(in_str)\n            if limit and n_chars > limit:\n',
+        "QUIET", None, 'len(in_str) through a local',
+    ),
+    Variant(
+        'quiet-char-limit-comparison-reversed', TEMPL_BASE,
+        '            if limit and len(in_str) > limit:\n',
+        '            if limit and limit < len(in_str):\n',
+        "QUIET", None, 'a > b written b < a',
+    ),
+    Variant(
+        'quiet-byte-limit-size-via-os-stat', LINTER,
+        '            file_size = os.path.getsize(fname)\n            if file_size > limit:\n',
+        '            file_size = os.stat(fname).st_size\n            if file_size > limit:\n',
+        "QUIET", None, 'os.path.getsize spelled os.stat(..).st_size',
+    ),
+    Variant(
+        'quiet-byte-limit-comparison-reversed', LINTER,
+        '            file_size = os.path.getsize(fname)\n            if file_size > limit:\n',
+        '            file_size = os.path.getsize(fname)\n            if limit < file_size:\n',
+        "QUIET", None, 'a > b written b < a',
+    ),
+    Variant(
+        'quiet-byte-limit-test-in-boolean-local', LINTER,
+        '            file_size = os.path.getsize(fname)\n            if file_size > limit:\n',
+        '            file_size = os.path.getsize(fname)\n            over_limit = file_size > limit\n            if over_limit:\n',
+        "QUIET", None, 'over-limit test held in a boolean local',
+    ),
+    Variant(
+        'quiet-serial-skip-count-before-log', RUNNER,
+        '                linter_logger.warning(str(s))\n                self.skipped_file_count += 1\n',
+        '                self.skipped_file_count = self.skipped_file_count + 1\n                linter_logger.warning(str(s))\n',
+        "QUIET", None, 'independent statements reordered; += 1 as x = x + 1',
+    ),
+    Variant(
+        'quiet-serial-yield-after-try', RUNNER,
+        '            try:\n                yield fname, self.linter.render_file(fname, self.config)\n            except SQLFluffSkipFile as s:\n                linter_logger.warning(str(s))\n                self.skipped_file_count += 1\n',
+        '            try:\n                rendered = self.linter.render_file(fname, self.config)\n            except SQLFluffSkipFile as s:\n                linter_logger.warning(str(s))\n                self.skipped_file_count += 1\n                continue\n            yield fname, rendered\n',
+        "QUIET", None, 'yield moved behind the try, handler continues',
+    ),
+    Variant(
+        'quiet-parallel-arm-subject-through-local', RUNNER,
+        '                if isinstance(lint_result, DelayedException):\n                    if isinstance(lint_result.ee, SQLFluffSkipFile):\n',
+        '                if isinstance(lint_result, DelayedException):\n                    carried = lint_result.ee\n                    if isinstance(carried, SQLFluffSkipFile):\n',
+        "QUIET", None, 'carried exception read into a local before the isinstance test',
+    ),
+    Variant(
+        'quiet-parallel-arm-negated', RUNNER,
+        '                    if isinstance(lint_result.ee, SQLFluffSkipFile):\n                        # A file was skipped (e.g. exceeded\n                        # large_file_skip_byte_limit). Log a plain warning,\n                        # not the "please report as bug" message.\n                        linter_logger.warning(str(lint_result.ee))\n                        self.skipped_file_count += 1\n                    else:\n                        try:\n                            lint_result.reraise()\n                        except Exception as e:\n                            self._handle_lint_path_exception(lint_result.fname, e)\n',
+        '                    if not isinstance(lint_result.ee, SQLFluffSkipFile):\n                        try:\n                            lint_result.reraise()\n                        except Exception as e:\n                            self._handle_lint_path_exception(lint_result.fname, e)\n                    else:\n                        # A file was skipped (e.g. exceeded\n                        # large_file_skip_byte_limit). Log a plain warning,\n                        # not the "please report as bug" message.\n                        linter_logger.warning(str(lint_result.ee))\n                        self.skipped_file_count += 1\n',
+        "QUIET", None, 'arms swapped under a negated test',
+    ),
+    Variant(
+        'quiet-counter-transfer-through-local', LINTER,
+        '        result.files_skipped = runner.skipped_file_count\n        result.stop_timer()\n',
+        '        n_skipped = runner.skipped_file_count\n        result.stop_timer()\n        result.files_skipped = n_skipped\n',
+        "QUIET", None, 'skip counter through a local',
+    ),
+    Variant(
+        'quiet-counter-transfer-after-stop-timer', LINTER,
+        '        result.files_skipped = runner.skipped_file_count\n        result.stop_timer()\n',
+        '        result.stop_timer()\n        result.files_skipped = runner.skipped_file_count\n',
+        "QUIET", None, 'two independent statements reordered',
+    ),
+    Variant(
+        'quiet-lint-skip-fail-compare-and-constant', CMD,
+        '        if result.files_skipped and config.get("large_file_skip_fail"):\n            exit_code = max(exit_code, EXIT_FAIL)\n        sys.exit(exit_code)\n',
+        '        if config.get("large_file_skip_fail") and result.files_skipped > 0:\n            exit_code = EXIT_FAIL\n        sys.exit(exit_code)\n',
+        "QUIET", None, '> 0 for truthiness, operands swapped, the failing constant instead of max()',
+    ),
+    Variant(
+        'quiet-lint-skip-fail-both-through-locals', CMD,
+        '        if result.files_skipped and config.get("large_file_skip_fail"):\n            exit_code = max(exit_code, EXIT_FAIL)\n        sys.exit(exit_code)\n',
+        '        n_skipped = result.files_skipped\n        fail_on_skip = config.get("large_file_skip_fail")\n        if n_skipped and fail_on_skip:\n            exit_code = max(exit_code, EXIT_FAIL)\n        sys.exit(exit_code)\n',
+        "QUIET", None, 'both operands read into locals first',
+    ),
+    Variant(
+        'quiet-lint-nofail-early-exit', CMD,
+        '    if not nofail:\n        if not non_human_output:\n            formatter.completion_message()\n        exit_code = result.stats(EXIT_FAIL, EXIT_SUCCESS)["exit code"]\n        assert isinstance(exit_code, int), "result.stats error code must be integer."\n        # If large_file_skip_fail is set and files were skipped, fail.\n        if result.files_skipped and config.get("large_file_skip_fail"):\n            exit_code = max(exit_code, EXIT_FAIL)\n        sys.exit(exit_code)\n    else:\n        sys.exit(EXIT_SUCCESS)\n',
+        '    if nofail:\n        sys.exit(EXIT_SUCCESS)\n    if not non_human_output:\n        formatter.completion_message()\n    exit_code = result.stats(EXIT_FAIL, EXIT_SUCCESS)["exit code"]\n    assert isinstance(exit_code, int), "result.stats error code must be integer."\n    # If large_file_skip_fail is set and files were skipped, fail.\n    if result.files_skipped and config.get("large_file_skip_fail"):\n        exit_code = max(exit_code, EXIT_FAIL)\n    sys.exit(exit_code)\n',
+        "QUIET", None, 'if/else turned into an early exit for --nofail',
+    ),
+    Variant(
+        'quiet-paths-fix-skip-fail-not-equal-zero', CMD,
+        '    if result.files_skipped and linter.config.get("large_file_skip_fail"):\n        exit_code = max(exit_code, EXIT_FAIL)\n\n    sys.exit(exit_code)\n',
+        '    if result.files_skipped != 0 and linter.config.get("large_file_skip_fail"):\n        exit_code = max(exit_code, EXIT_FAIL)\n\n    sys.exit(exit_code)\n',
+        "QUIET", None, '!= 0 for truthiness',
+    ),
+    Variant(
+        'quiet-parse-path-yield-in-try-else', LINTER,
+        '            except SQLFluffSkipFile as s:\n                linter_logger.warning(str(s))\n                continue\n            yield self.parse_string(\n                raw_file,\n                fname=fname,\n                config=config,\n                encoding=encoding,\n                parse_statistics=parse_statistics,\n            )\n',
+        '            except SQLFluffSkipFile as s:\n                linter_logger.warning(str(s))\n            else:\n                yield self.parse_string(\n                    raw_file,\n                    fname=fname,\n                    config=config,\n                    encoding=encoding,\n                    parse_statistics=parse_statistics,\n                )\n',
+        "QUIET", None, 'continue turned into try/else',
+    ),
+    # breaking twins of the spellings accepted above
+    Variant(
+        'char-limit-skipped-when-no-formatter', TEMPL_BASE,
+        '        if config:\n            limit = config.get("large_file_skip_char_limit")\n',
+        '        if not formatter:\n            return func(\n                self, in_str=in_str, fname=fname, config=config, formatter=formatter\n            )\n        if config:\n            limit = config.get("large_file_skip_char_limit")\n',
+        'R34a', None, 'breaking twin of the early-return spelling: the parameter tested is not the config',
+    ),
+    Variant(
+        'char-limit-comparison-reversed-wrongly', TEMPL_BASE,
+        '            if limit and len(in_str) > limit:\n',
+        '            if limit and limit > len(in_str):\n',
+        'R34a', None, 'breaking twin of the reversed-comparison spelling',
+    ),
+    Variant(
+        'char-limit-boolean-local-measures-name', TEMPL_BASE,
+        '            if limit and len(in_str) > limit:\n',
+        '            too_long = bool(limit) and len(fname) > limit\n            if too_long:\n',
+        'R34a', None, 'breaking twin of the boolean-local spelling',
+    ),
+    Variant(
+        'byte-limit-comparison-reversed-wrongly', LINTER,
+        '            file_size = os.path.getsize(fname)\n            if file_size > limit:\n',
+        '            file_size = os.path.getsize(fname)\n            if limit > file_size:\n',
+        'R34b', None, 'breaking twin of the reversed-comparison spelling',
+    ),
+    Variant(
+        'byte-limit-boolean-local-negated', LINTER,
+        '            file_size = os.path.getsize(fname)\n            if file_size > limit:\n',
+        '            file_size = os.path.getsize(fname)\n            over_limit = file_size > limit\n            if not over_limit:\n',
+        'R34b', None, 'breaking twin of the boolean-local spelling',
+    ),
+    Variant(
+        'parallel-arm-local-reads-another-attribute', RUNNER,
+        '                if isinstance(lint_result, DelayedException):\n                    if isinstance(lint_result.ee, SQLFluffSkipFile):\n',
+        '                if isinstance(lint_result, DelayedException):\n                    carried = lint_result.fname\n                    if isinstance(carried, SQLFluffSkipFile):\n',
+        'R34c', None, 'breaking twin of the subject-in-a-local spelling: the arm no longer reads the forwarded exception',
+    ),
+    Variant(
+        'counter-transfer-local-holds-something-else', LINTER,
+        '        result.files_skipped = runner.skipped_file_count\n        result.stop_timer()\n',
+        '        n_skipped = len(expanded_paths) - len(result.paths)\n        result.stop_timer()\n        result.files_skipped = n_skipped\n',
+        'R34c', None, 'breaking twin of the counter-in-a-local spelling',
+    ),
+    Variant(
+        'lint-skip-fail-when-nothing-skipped', CMD,
+        '        if result.files_skipped and config.get("large_file_skip_fail"):\n            exit_code = max(exit_code, EXIT_FAIL)\n        sys.exit(exit_code)\n',
+        '        if result.files_skipped == 0 and config.get("large_file_skip_fail"):\n            exit_code = max(exit_code, EXIT_FAIL)\n        sys.exit(exit_code)\n',
+        'R34d', None, 'breaking twin of the compare-with-zero spelling',
     ),
     Variant("placeholder-process-undecorated", PLACEHOLDER, "    @large_file_check\n    def process(", "    def process(", "R34a", "PlaceholderTemplater.process"),
     Variant("jinja-variants-undecorated", JINJA, "    @large_file_check\n    def process_with_variants(", "    def process_with_variants(", "R34a", "JinjaTemplater.process_with_variants"),
